@@ -93,6 +93,35 @@ def execute_argv(case):
     expected = []
     cmd_src = []
     interesting = False
+
+    def unsafe_ref(tokens):
+        for tok in tokens:
+            for p_ in tok["pieces"]:
+                if p_[0] == 'ref' and not all(
+                        ch in SAFE for ch in str(values[p_[1].lower()])):
+                    return True
+        return False
+
+    def subst_then_split(tokens):
+        """The statement's definition for string forms: substitute the
+        references (we know which texts we emitted and their values), then
+        split by shell quoting rules."""
+        parts = []
+        for tok in tokens:
+            src = ''
+            for p_ in tok["pieces"]:
+                s_, e_ = render_piece(p_, values, True)
+                if p_[0] == 'ref':
+                    src += '\0REF%d\0' % len(subs)
+                    subs.append(e_)
+                else:
+                    src += s_
+            parts.append(quote_token(src, tok["style"]))
+        text = ' '.join(parts)
+        for i_, e_ in enumerate(subs):
+            text = text.replace('\0REF%d\0' % i_, e_)
+        return shlex.split(text)
+    subs = []
     for tok in case["cmd_tokens"]:
         src = ''.join(render_piece(p, values, True)[0] for p in tok["pieces"])
         exp = ''.join(render_piece(p, values, True)[1] for p in tok["pieces"])
@@ -102,6 +131,13 @@ def execute_argv(case):
                 re.search(r'[\s\'"\\]', exp):
             interesting = True
     cmd = ' '.join(cmd_src)
+    split_unsafe = False
+    if unsafe_ref(case["cmd_tokens"]):
+        split_unsafe = True
+        try:
+            expected = subst_then_split(case["cmd_tokens"])
+        except ValueError:
+            return [], False, ['argv', 'unbalanced-after-substitution']
     args = None
     if case["args_form"] == 'list':
         args = []
@@ -117,14 +153,23 @@ def execute_argv(case):
                 interesting = True
     elif case["args_form"] == 'string':
         parts = []
+        exp_args = []
         for tok in case["args_tokens"]:
             src = ''.join(render_piece(p, values, True)[0]
                           for p in tok["pieces"])
             exp = ''.join(render_piece(p, values, True)[1]
                           for p in tok["pieces"])
             parts.append(quote_token(src, tok["style"]))
-            expected.append(exp)
+            exp_args.append(exp)
         args = ' '.join(parts)
+        if unsafe_ref(case["args_tokens"]):
+            split_unsafe = True
+            subs[:] = []
+            try:
+                exp_args = subst_then_split(case["args_tokens"])
+            except ValueError:
+                return [], False, ['argv', 'unbalanced-after-substitution']
+        expected.extend(exp_args)
     p = Process('w', case["wid"], cmd, args=args,
                 working_dir=case["working_dir"], shell=case["shell"],
                 env=env, spawn=False)
@@ -155,6 +200,8 @@ def execute_argv(case):
             'format_args gave %r, expected %r (cmd=%r args=%r env=%r)' % (
                 got, expected, cmd, args, env)))
     classes = ['argv', 'args-' + str(case["args_form"])]
+    if split_unsafe:
+        classes.append('split-unsafe-value-in-string-form')
     if case["shell"]:
         classes.append('shell')
     if any(p[0] == 'ref' for tok in case["cmd_tokens"] + case["args_tokens"]
@@ -316,8 +363,12 @@ def _argv_strategy():
 
     @st.composite
     def case(draw):
+        unsafe = st.sampled_from(['a b', '--workers 4 --bind 0.0.0.0:80',
+                                  "x 'y z' w", 'p\\ q', '"dq v"', ' lead',
+                                  'tab\tsep'])
         env = draw(st.dictionaries(
-            st.sampled_from(['VA', 'VB', 'PATHX', 'X1']), safe, max_size=3))
+            st.sampled_from(['VA', 'VB', 'PATHX', 'X1']),
+            st.one_of(safe, safe, unsafe), max_size=3))
         socks = draw(st.dictionaries(st.sampled_from(['web', 'api']),
                                      st.integers(3, 99), max_size=2))
         refnames = ['wid', 'working_dir'] + \
